@@ -158,16 +158,14 @@ class Report:
     @staticmethod
     def match_known(f, known):
         for k in known:
-            if k.get("property") and f.get("_prop", None) and k["property"] != f["_prop"]:
-                continue
-            m = k.get("match", {})
-            if "obligation" in m and not re.search(m["obligation"], f["obligation"]):
-                continue
-            if "case" in m and not re.search(m["case"], f.get("case") or ""):
-                continue
-            if "info" in m and not re.search(m["info"], str(f.get("info") or "")):
-                continue
-            return k
+            for m in k.get("match_any", [k.get("match", {})] if k.get("match") else []):
+                if "obligation" in m and not re.search(m["obligation"], f["obligation"]):
+                    continue
+                if "case" in m and not re.search(m["case"], f.get("case") or ""):
+                    continue
+                if "info" in m and not re.search(m["info"], str(f.get("info") or "")):
+                    continue
+                return k
         return None
 
     def evidence(self, nviol, known_hits):
